@@ -675,8 +675,6 @@ def impl_run(snap_root, path):
 def is_valid(snap_root):
     from metapype.eml import validate
     from metapype.model.node import Node
-    if snap_root["name"] != "eml":
-        return False
     root = build_impl(snap_root)
     errs = []
     try:
@@ -748,6 +746,9 @@ def statement_check(ctx, label, snap_root, snap_at, parent_name, res, replay):
 def run(ctx):
     built = ctx.build(extra_targets=["theories/Model/EvaluateRun.v"])
     from metapype.model import metapype_io
+    from metapype.eml import rule as R
+    global KNOWN_ELEMENTS
+    KNOWN_ELEMENTS = set(R.node_mappings)
     ctx.extra["rule"] = ("rule-guided EML trees: element-level variants (titles 0/1/3/4/5/6 words x 5 separator styles; abstracts 0/1/18/19/20/21 words x 5 "
                          "shapes + 6 empty shapes; keyword totals over 1-5 sets; coverage/table/rights/methods/project present, empty, absent; responsible "
                          "parties x userId variants x e-mail variants; names; data-table physical/size/authentication/dataFormat/recordDelimiter (both places)/"
@@ -785,7 +786,7 @@ def run(ctx):
         dispatched = sum(1 for n, _ in preorder(snap_at) if n["name"] in DISPATCHED)
         ctx.case((label, repr(root), tuple(path)), dispatched > 0)
         ctx.count("kind=" + label.split(":")[0])
-        valid = is_valid(root)
+        valid = is_valid(root) if root["name"] in KNOWN_ELEMENTS else False
         shape = py_shape_ok(snap_at)
         n_valid += valid
         n_shape += shape
@@ -860,6 +861,7 @@ def run(ctx):
         ctx.obligations_failed("generated EML trees and mutants against the plain-Python statement oracle")
 
 
+KNOWN_ELEMENTS = set()
 DISPATCHED = set(PARTIES) | {"dataset", "dataTable", "description", "individualName", "otherEntity", "title"}
 
 
